@@ -1448,3 +1448,78 @@ def rule_emptykernel(ctx) -> RuleResult:
                        "(IndexError inside a task for a dask array with a zero-length chunk); return early when the axis is empty")
     res.inst(f"{n} kernels use the run-start idiom", "count")
     return res
+
+
+# ---------------------------------------------------------------------------------------------
+# R-NANFINAL (C02, C04): finalizers let NaN through.
+# A finalizer (mean, var, std ...) serves the NaN-propagating and the NaN-skipping variant of a reduction alike: skipping happened in the block
+# kernels, and a NaN that reaches the finalizer means "this group had a NaN member" (var) or "inf - inf" and must come out as NaN, as the eager
+# engines return it.  A NaN-ignoring primitive in a finalizer (np.fmax / np.fmin / np.nan_to_num / np.nanmax ...) turns it into a number.
+_NAN_SWALLOWERS = {"np.fmax", "np.fmin", "np.nan_to_num", "np.nanmax", "np.nanmin", "np.nansum", "np.nanmean", "np.nanprod", "numpy.fmax", "numpy.fmin"}
+
+
+def rule_nanfinal(ctx) -> RuleResult:
+    res = RuleResult("R-NANFINAL", "blueprint finalizers contain no NaN-ignoring primitive", min_instances=3)
+    fins = sorted(q for q in ctx.registry.slot_funcs("finalize", "agg") if q in ctx.prog.funcs)
+    if len(fins) < 3:
+        raise AnalysisError(f"finalizers found through the registry: {fins}; hand-confirmed: _mean_finalize, _var_finalize, _std_finalize, _pick_second")
+    seen = set()
+    work = list(fins)
+    while work:
+        q = work.pop()
+        if q in seen:
+            continue
+        seen.add(q)
+        f = ctx.prog.funcs[q]
+        bad = [c for c in calls_in(f.node) if norm(c.func) in _NAN_SWALLOWERS]
+        res.inst(f"{q}: NaN-ignoring primitives: {[norm(c.func) for c in bad] or 'none'}", q)
+        for c in bad:
+            res.report(f"{q}|nan-swallowed|{norm(c.func)}", f.where(c), q,
+                       f"'{norm(c)[:60]}' ignores NaN: a group whose intermediate is NaN (a NaN member under var/std, or inf - inf) comes out as a number from the "
+                       "tree-reduced plans while the eager engines return NaN (chunked != eager)")
+        for c in calls_in(f.node):          # finalizers calling each other (_std_finalize -> _var_finalize)
+            g = f"{f.unit.name}.{norm(c.func)}"
+            if g in ctx.prog.funcs and g not in seen:
+                work.append(g)
+    return res
+
+
+# ---------------------------------------------------------------------------------------------
+# R-ROUNDTRIP (C11): what the entry point converted on the way in, it converts back on the way out, under the same flags.
+# groupby_reduce views datetime64 / timedelta64 data as int64 (and bool as int) before reducing and saves the original dtype; the tail casts
+# the result back.  Whether the cast happens must depend on the flags computed at the head (is_npdatetime, requires_numeric, func), never on
+# what the result looks like: a float result (mean, or a NaN fill) is still a datetime.
+def rule_roundtrip(ctx) -> RuleResult:
+    res = RuleResult("R-ROUNDTRIP", "the result is cast back to a saved input dtype under head flags only, not depending on the result", min_instances=1)
+    from ..astutil import guard_facts
+    f = ctx.prog.func("core.groupby_reduce")
+    arr = f.params[0]
+    res_name = None
+    for r in walk_own(f.node):
+        if isinstance(r, ast.Return) and isinstance(r.value, ast.Tuple) and r.value.elts and isinstance(r.value.elts[0], ast.Name):
+            res_name = r.value.elts[0].id
+    if res_name is None:
+        raise AnalysisError("groupby_reduce: cannot identify the returned result variable (anchor)")
+    saved = {a.targets[0].id for a in walk_own(f.node) if isinstance(a, ast.Assign) and len(a.targets) == 1 and isinstance(a.targets[0], ast.Name)
+             and norm(a.value) == f"{arr}.dtype"}
+    pm = parents_map(f.node)
+    n = 0
+    for a in walk_own(f.node):
+        if not (isinstance(a, ast.Assign) and len(a.targets) == 1 and norm(a.targets[0]) == res_name and isinstance(a.value, ast.Call)
+                and isinstance(a.value.func, ast.Attribute) and a.value.func.attr in ("astype", "view") and norm(a.value.func.value) == res_name and a.value.args):
+            continue
+        tgt = a.value.args[0]
+        restores = (isinstance(tgt, ast.Name) and tgt.id in saved) or norm(tgt) in ("bool", "np.bool_")
+        if not restores:
+            continue
+        n += 1
+        facts = guard_facts(a, pm)
+        on_result = sorted(at for at, _pol in facts if res_name in {x.id for x in ast.walk(ast.parse(at, mode="eval")) if isinstance(x, ast.Name)})
+        res.inst(f"groupby_reduce: '{norm(a)[:50]}' guarded by {sorted(at for at, _ in facts)[:4]}: inspects the result: {bool(on_result)}", f"restore|{a.lineno}")
+        if on_result:
+            res.report(f"core.groupby_reduce|restore-depends-on-result|{norm(tgt)}", f.where(a), f.qualname,
+                       f"the cast back to the saved input dtype ('{norm(a)[:50]}') is skipped depending on the result itself ({on_result[0][:50]}): a float result "
+                       "(mean, median, or min/max/sum with a NaN fill) of datetime64 / timedelta64 input comes back as float64 epoch numbers instead of datetimes")
+    if n == 0:
+        raise AnalysisError("groupby_reduce: no cast of the result back to a saved input dtype found (anchor)")
+    return res
